@@ -177,6 +177,15 @@ func firstLine(s string) string {
 }
 
 func init() {
+	fw.RegisterChild("c11r", func(raw json.RawMessage) any {
+		var hs []redefBeh
+		json.Unmarshal(raw, &hs)
+		out := make([]redefObs, len(hs))
+		for x := range hs {
+			out[x] = replayRedef(hs[x])
+		}
+		return out
+	})
 	gorun.Register()
 	fw.RegisterChild("c11", func(raw json.RawMessage) any {
 		var js []sessJob
@@ -196,6 +205,126 @@ func init() {
 }
 
 func main() { fw.Main("C11", "model_checking", run) }
+
+// ---- redefinition histories (spec/core/Redef.tla) ----
+
+type redefStep struct {
+	Op      string `json:"op"`
+	V       int    `json:"v"`
+	Allowed []int  `json:"allowed"`
+}
+
+type redefBeh struct {
+	Hist []redefStep `json:"hist"`
+}
+
+type redefObs struct {
+	Step int    `json:"step"` // first failing step, 0 = none
+	What string `json:"what,omitempty"`
+}
+
+func replayRedef(h redefBeh) (o redefObs) {
+	defer func() {
+		if r := recover(); r != nil {
+			o = redefObs{Step: -1, What: fmt.Sprintf("Go panic escaped: %v", r)}
+		}
+	}()
+	i := interp.New(interp.Options{Stdout: new(bytes.Buffer), Stderr: new(bytes.Buffer)})
+	i.Use(stdlib.Symbols)
+	xDeclared := false
+	for n, st := range h.Hist {
+		src := ""
+		switch st.Op {
+		case "DefF":
+			src = fmt.Sprintf("func f() int { return %d }", st.V)
+		case "DefG":
+			src = fmt.Sprintf("func g() int { return %d }", st.V)
+		case "DefC":
+			src = "func c() int { return f() + 10 }"
+		case "SetX":
+			if xDeclared {
+				src = fmt.Sprintf("x = %d", st.V)
+			} else {
+				src = fmt.Sprintf("var x = %d", st.V)
+				xDeclared = true
+			}
+		case "UseF":
+			src = "f()"
+		case "UseG":
+			src = "g()"
+		case "UseC":
+			src = "c()"
+		case "UseX":
+			src = "x"
+		}
+		v, err := i.Eval(src)
+		if err != nil {
+			return redefObs{Step: n + 1, What: "error: " + firstLine(err.Error())}
+		}
+		if len(st.Allowed) > 0 {
+			if !v.IsValid() || !v.CanInt() {
+				return redefObs{Step: n + 1, What: "no integer value returned"}
+			}
+			ok := false
+			for _, a := range st.Allowed {
+				if int(v.Int()) == a {
+					ok = true
+				}
+			}
+			if !ok {
+				return redefObs{Step: n + 1, What: fmt.Sprintf("returned %d", v.Int())}
+			}
+		}
+	}
+	return redefObs{}
+}
+
+func redefinitions(c *fw.Ctx) error {
+	var behs []redefBeh
+	cfg := fmt.Sprintf("SPECIFICATION Spec\nCONSTANTS MaxLen = %d\nINVARIANTS CallerSeesCurrentOrOlder Emit\nPROPERTIES OnlyThatSymbol\n", c.Pick(4, 5))
+	res, err := c.TLC(fw.TLCOpts{Dir: "spec/core", Module: "Redef", Cfg: "gen.cfg", Files: map[string][]byte{"gen.cfg": []byte(cfg)}, Workers: 4, Timeout: 5 * time.Minute,
+		OnBeh: func(r json.RawMessage) {
+			var b redefBeh
+			if json.Unmarshal(r, &b) == nil {
+				behs = append(behs, b)
+			}
+		}})
+	if err != nil {
+		return err
+	}
+	if res.Violated != "" {
+		return fmt.Errorf("Redef.tla: %s", res.Violated)
+	}
+	const chunk = 200
+	var jobs []any
+	for x := 0; x < len(behs); x += chunk {
+		y := x + chunk
+		if y > len(behs) {
+			y = len(behs)
+		}
+		jobs = append(jobs, behs[x:y])
+	}
+	for ji, r := range c.RunChildren("c11r", jobs, 16, 120*time.Second, nil) {
+		var os []redefObs
+		if r.Out == nil || json.Unmarshal(r.Out, &os) != nil {
+			return fmt.Errorf("redefinition replay: harness child %s", r.Describe())
+		}
+		for x, o := range os {
+			h := behs[ji*chunk+x]
+			key, _ := json.Marshal(h)
+			c.Count("redef:"+string(key), true)
+			c.TracesVsImpl++
+			if o.Step != 0 {
+				op := "?"
+				if o.Step > 0 && o.Step <= len(h.Hist) {
+					op = h.Hist[o.Step-1].Op
+				}
+				c.Fail("redefinition history, failing step "+op, stripPos(o.What), map[string]any{"redef": h, "observed": o})
+			}
+		}
+	}
+	return nil
+}
 
 func run(c *fw.Ctx) error {
 	c.Rule = "one case = (random GoCore program without top-level deferred calls that ends normally, cut of its 7 declaration items + main statements, entry point); non-trivial when the cut makes at least 3 chunks or the entry point is not Eval; distinct by (source, cut, entry)"
@@ -245,6 +374,11 @@ func run(c *fw.Ctx) error {
 		}
 		c.States += int64(jv * c.Pick(8, 60) * 50)
 		c.Transitions += int64(jv * c.Pick(8, 60) * 50)
+	}
+	if c.Replay == "" {
+		if err := redefinitions(c); err != nil {
+			return err
+		}
 	}
 	// The property compares the interpreter with itself; a program on which the whole
 	// evaluation already departs from the specification is a matter for C01, not for C11.
